@@ -433,7 +433,7 @@ static void fam_run(uint64_t seed, const RunOpts *o, Result *r) {
         if (what) {
             mismatches++;
             if (P.mode == 2) res_violation(r, prop, "idle-shutdown-race:client-%s", WIFSIGNALED(cl[i]->status) ? "killed-by-SIGPIPE" : "gets-connection-error");
-            else res_violation(r, prop, "client-mismatch:%s:%s", what, P.c[i].prog);
+            else res_violation(r, prop, "client-mismatch:%s:%s", what, is_gen(P.c[i].prog) ? "generated-program" : P.c[i].prog);
             buf_printf(&r->detail, "client%d prog=%s tok=%d differs in %s: daemon-run status=%d out=%zuB err=[%.*s] | standalone status=%d out=%zuB err=[%.*s]\n",
                        i, P.c[i].prog, P.c[i].tok, what, exit_code_of(cl[i]->status), cout[i].len, (int)(e1.len > 300 ? 300 : e1.len), e1.d ? (char *)e1.d : "",
                        exit_code_of(ref->status), ref->out.len, (int)(e2.len > 300 ? 300 : e2.len), e2.d ? (char *)e2.d : "");
